@@ -46,6 +46,7 @@ class Contract:
         # tier="thorough": the body is verified only by the thorough tier (VC generation too slow for the per-change check); the quick
         # tier treats the contract as trusted and runs its bounded stand-in instead
         self.tier = opts.get("tier")
+        self.opaque_on_tables = opts.get("opaque_on_tables", False)    # see Interp.call_contract
         import os as _os
         if self.tier == "thorough" and _os.environ.get("VERIF_TIER", "quick") != "thorough":
             self.trusted = True
